@@ -9,7 +9,7 @@ from vlib import engine, formats, gen, kal, present, runner
 ID = "C16"
 RULE = ("A program is built from 3..6 units over a small pool of generated inputs/configurations: (A) kalign() call; (F) "
         "kalign_read_input of 1..3 files (any readable format) -> kalign_run -> dump -> kalign_write_msa in 1..3 formats -> "
-        "kalign_free_msa (a quarter of these align the object twice - the second result must equal the first - and some try to write before aligning, which must fail cleanly; a fifth call kalign_check_msa / reformat_settings_msa in between; a sixth first make a run that is rejected, a sixth append their last file only after a first alignment - the fresh-process reference of those units is the plain read-all, align-once sequence); (C) two alignments read into two objects -> kalign_msa_compare -> free both; (R) a run that must be "
+        "kalign_free_msa (a quarter of these align the object twice - the second result must equal the first - and some try to write before aligning, which must fail cleanly; a fifth call kalign_check_msa / reformat_settings_msa in between; a sixth first make a run that is rejected, a sixth append their last file only after a first alignment, a sixth offer the object a large file of the other kind (refused) after their first file - the fresh-process reference of those units is the plain read-all, align-once sequence); (C) two alignments read into two objects -> kalign_msa_compare -> free both; (R) a run that must be "
         "rejected (type/kind mismatch) -> free; (X) reads that add nothing (directory, missing / empty / blank / binary file) -> free. The steps of all units are interleaved by a drawn merge order (several msa "
         "objects alive at once) with 'scribble' steps (malloc/fill/free of drawn sizes and byte patterns: the application's own "
         "heap traffic) in between; validity by construction. The whole program runs in one ASan+UBSan+LSan probe process. "
@@ -130,6 +130,8 @@ def unit(draw, pool):
         # the final result must be the one a fresh process gives without the rejected run / with all records read first
         u["fail_first"] = draw(st.integers(0, 5)) == 0
         u["append_after_run"] = draw(st.integers(0, 5)) == 0
+        # a (large) file of the other kind offered to the object between two reads: it is refused, and must leave no trace
+        u["refused_append"] = draw(st.integers(0, 5)) == 0
         # the remaining public calls on an msa object (duplicate-name check, rename / un-align), before aligning
         u["pre"] = draw(st.lists(st.sampled_from(["checkmsa %d 0", "checkmsa %d 1", "reformat %d 0 0", "reformat %d 1 0", "reformat %d 0 1", "reformat %d 1 1"]),
                                  min_size=1, max_size=2)) if draw(st.integers(0, 4)) == 0 else []
@@ -181,6 +183,10 @@ def unit_steps(u, pool, wd, slot0, baseline=False):
         n = len(seqs)
         k = min(u.get("nfiles", 1), max(1, n // 2))
         bounds = [round(i * n / k) for i in range(k + 1)]
+        # the history variants (rejected run first, append after a run, refused append) presuppose that every file on its own
+        # is of the input's kind - kalign classifies each file when it is read
+        if any(gen.expected_kind([x for x in seqs[a:b] if x]) != inp["kind"] for a, b in zip(bounds, bounds[1:])) or inp["kind"] not in ("dna", "protein"):
+            u = dict(u, fail_first=False, append_after_run=False, refused_append=False)
         for a, b in zip(bounds, bounds[1:]):
             fmt = u.get("infmt", "fasta")
             ch = {"fmt": "fasta" if fmt in ("fasta", "afa") else fmt, "gapmode": "aligned" if fmt != "fasta" else "none",
@@ -191,6 +197,9 @@ def unit_steps(u, pool, wd, slot0, baseline=False):
                 lines.append("run %d %s" % (slot0, kal.cfg_args(u["cfg"])))
             lines.append("read %d 1 %s" % (slot0, fp))
             keys.append((len(lines) - 1, "rc"))
+            if u.get("refused_append") and u["kind"] == "F" and a == 0 and inp["kind"] in ("dna", "protein") and not baseline:
+                other = gen.expand_random(u["inp"] * 31 + 5, gen.AA if inp["kind"] == "dna" else gen.NUC, 6, 250, 400)
+                lines.append("read %d 1 %s" % (slot0, wd.write(kal.fasta_bytes(["x%d" % i for i in range(6)], other), ".fa")))
         if u.get("fail_first") and u["kind"] == "F" and inp["kind"] in ("dna", "protein") and not baseline:
             lines.append("run %d %s" % (slot0, kal.cfg_args(dict(u["cfg"], type=3 if inp["kind"] == "dna" else 0))))
         if u.get("early_write"):
@@ -198,7 +207,7 @@ def unit_steps(u, pool, wd, slot0, baseline=False):
             keys.append((len(lines) - 1, "early_write_rc"))
         # (renaming counts records, and a rejected run already drops the empty ones: the extra calls are only made in units
         # whose reference sequence has the same steps)
-        for pre in (u.get("pre") or []) if u["kind"] == "F" and not (u.get("fail_first") or u.get("append_after_run")) else []:
+        for pre in (u.get("pre") or []) if u["kind"] == "F" and not (u.get("fail_first") or u.get("append_after_run") or u.get("refused_append")) else []:
             lines.append(pre % slot0)
             keys.append((len(lines) - 1, "rc"))
         lines.append("run %d %s" % (slot0, kal.cfg_args(u["cfg"])))
